@@ -274,6 +274,9 @@ func (p *queueProxy) Unlock(uuid string) error {
 				inc.s.cloud.reap()
 				if len(inc.s.liveProcs(uuid)) > 0 {
 					inc.s.staleUnlock[uuid] = true
+					// Did fixStaleLocks give up (its timeout elapsed with a worker still unprobed), or did it
+					// release the lock earlier because no worker was in state Unknown any more?
+					inc.s.staleUnlockEarly[uuid] = time.Since(inc.began) < inc.s.k.StaleLockTime
 					inc.s.w.Probe("fixStaleLocks-unlocks-container-with-live-process")
 				}
 				return nil
